@@ -44,7 +44,7 @@ def shrink(binary, hist, pred, budget=40):
 
 def run(chk, prop, profiles, n_quick, n_thorough, codes, replay=None, extra_histories=None):
     pid = chk.pid
-    st = vlib.std_coq_stage(chk, prop, gen=True, extra_targets=["ProcMonitor"])
+    st = vlib.std_coq_stage(chk, prop, gen=True, extra_targets=["ProcMonitor", "Status"])
     rng = random.Random(chk.seed)
     n = n_quick if chk.tier == "quick" else n_thorough
     if replay:
@@ -66,6 +66,12 @@ def run(chk, prop, profiles, n_quick, n_thorough, codes, replay=None, extra_hist
                  "the current tree:\n" + blog, no_input=True)
         return
     obs, res, log = procgen.run_and_evaluate(binary, hists, name=pid.lower())
+    if obs is None and res and "crash" in res:
+        i = res["crash"]
+        chk.fail("crash_h%d.json" % i, {"what": "the daemon code died (panic / fatal error in one of its goroutines) while this "
+                 "history ran against the real processor; the model runs it to the end", "histories": [hists[i]],
+                 "log": log[-3000:], "replay": "./check %s quick --replay <this file>" % pid}, sig="proc-crash")
+        return
     if obs is None:
         chk.fail("harness_run.txt", "harness TestVerifProc failed:\n" + log[-4000:], no_input=True)
         return
@@ -147,7 +153,7 @@ def run_stage(chk, profiles, n, codes, name="procstage"):
     on the real processor).  The Coq stage has been done by the caller.  Returns False if the stage could not run."""
     import random as _r
     rng = _r.Random(chk.seed + 7)
-    ok, out = vlib.coq_make(["ProcMonitor.vo"])
+    ok, out = vlib.coq_make(["ProcMonitor.vo", "Status.vo"])
     if not ok:
         chk.fail("procmonitor_build.txt", "coq/ProcMonitor.v does not build:\n" + out[-3000:], no_input=True)
         return False
@@ -157,6 +163,10 @@ def run_stage(chk, profiles, n, codes, name="procstage"):
         chk.fail("harness_build.txt", "processor harness (TestVerifProc) does not build against the current tree:\n" + blog, no_input=True)
         return False
     obs, res, log = procgen.run_and_evaluate(binary, hists, name=name)
+    if obs is None and res and "crash" in res:
+        chk.fail("procstage_crash_h%d.json" % res["crash"], {"what": "the daemon code died while this history ran against the "
+                 "real processor", "histories": [hists[res["crash"]]], "log": log[-3000:]}, sig="proc-crash")
+        return False
     if obs is None or "error" in (res or {}):
         chk.fail("procstage_run.txt", "processor stage failed:\n" + (log or "")[-3000:] + str((res or {}).get("error", ""))[-2000:], no_input=True)
         return False
